@@ -92,6 +92,16 @@ func scaleDoc(n, kind int) (*uni.Node, []string) {
 			field = []string{"ID"}
 		}
 	}
+	if kind == 7 {
+		// a map of n entries: the keys k0..k<n-1> are visited in text order (k10 before k2)
+		m := &uni.Node{T: uni.MapOf(strT, uni.Iface())}
+		for i := 0; i < n; i++ {
+			m.Keys = append(m.Keys, uni.Str("k"+strconv.Itoa(i)))
+			m.Elems = append(m.Elems, uni.InIface(uni.Int(uni.KInt, int64(i))))
+		}
+		root := &uni.Node{T: uni.MapOf(strT, uni.Iface()), Keys: []*uni.Node{uni.Str("xs"), uni.Str("n")}, Elems: []*uni.Node{uni.InIface(m), uni.InIface(uni.Int(uni.KInt, int64(n)))}}
+		return root, nil
+	}
 	var list *uni.Node
 	if kind == 4 {
 		list = uni.List(uni.ArrayOf(n, et), elems...)
@@ -114,6 +124,27 @@ func scaleLit(p, kind int) string {
 func scaleExprs(t *rapid.T, n, p, kind int, field []string) []bx.Expr {
 	xs := bx.Sel{Parts: []string{"xs"}}
 	lit := scaleLit(p, kind)
+	if kind == 7 {
+		all := rapid.Bool().Draw(t, "all")
+		op := map[bool]bx.Op{false: bx.OpEq, true: bx.OpNe}[all]
+		key := "k" + strconv.Itoa(p)
+		switch rapid.IntRange(0, 4).Draw(t, "mapForm") {
+		case 0:
+			return []bx.Expr{&bx.Quant{All: all, Sel: xs, Mode: bx.BindBoth, Index: "k", Value: "v", Body: &bx.Match{Sel: bx.Sel{Parts: []string{"v"}}, Op: op, Lit: lit}}}
+		case 1:
+			return []bx.Expr{&bx.Quant{All: all, Sel: xs, Mode: bx.BindDefault, Value: "k", Body: &bx.Match{Sel: bx.Sel{Parts: []string{"k"}}, Op: op, Lit: key}}}
+		case 2:
+			// key and value belong together
+			body := bx.Expr(&bx.And{L: &bx.Match{Sel: bx.Sel{Parts: []string{"k"}}, Op: bx.OpEq, Lit: key}, R: &bx.Match{Sel: bx.Sel{Parts: []string{"v"}}, Op: bx.OpEq, Lit: lit}})
+			return []bx.Expr{&bx.Quant{All: false, Sel: xs, Mode: bx.BindBoth, Index: "k", Value: "v", Body: body}}
+		case 3:
+			return []bx.Expr{&bx.Match{Sel: xs, Op: []bx.Op{bx.OpIn, bx.OpNotIn}[rapid.IntRange(0, 1).Draw(t, "memb")], Lit: key}, &bx.Match{Sel: bx.Sel{Parts: []string{"xs", key}}, Op: bx.OpEq, Lit: lit}}
+		default:
+			// an erroring entry late in text order: the fold stops there, not before
+			return []bx.Expr{&bx.Quant{All: all, Sel: xs, Mode: bx.BindValue, Value: "v", Body: &bx.Match{Sel: bx.Sel{Parts: []string{"v", "deeper"}}, Op: op, Lit: lit}},
+				&bx.Quant{All: !all, Sel: xs, Mode: bx.BindIndex, Index: "k", Body: &bx.Match{Sel: bx.Sel{Parts: []string{"k"}}, Op: bx.OpMatches, Lit: "^k" + strconv.Itoa(p) + "$"}}}
+		}
+	}
 	val := func(name string) bx.Sel { return bx.Sel{Parts: append([]string{name}, field...)} }
 	var out []bx.Expr
 	all := rapid.Bool().Draw(t, "all")
@@ -157,7 +188,7 @@ func scaleRun(t *rapid.T, property, test string, r interface {
 }) {
 	n := scaleLen(t)
 	p := scalePos(t, n)
-	kind := rapid.IntRange(0, 6).Draw(t, "elemKind")
+	kind := rapid.IntRange(0, 7).Draw(t, "elemKind")
 	root, field := scaleDoc(n, kind)
 	rend := bx.NewRenderer(chooser(t))
 	rend.MaxParen = 1
@@ -173,7 +204,7 @@ func scaleRun(t *rapid.T, property, test string, r interface {
 	}
 }
 
-const scaleRule = "; long collections: lists of 41..3000 elements (lengths around 64/100/128/256/512/1000/1024/2048 favoured) of ints, interfaces, structs, pointers, strings, maps and arrays; " +
+const scaleRule = "; long collections: lists of 41..3000 elements (lengths around 64/100/128/256/512/1000/1024/2048 favoured) of ints, interfaces, structs, pointers, strings, maps and arrays, and maps of as many entries; " +
 	"any/all in every binding mode, membership and direct indexing whose outcome hinges on the element at a drawn position (tail, just past a power of two, just past a multiple of 100), " +
 	"against the reference interpreter; non-trivial = position >= 64"
 
@@ -210,7 +241,7 @@ func TestC09_LongLists(t *testing.T) {
 // one late element, all but one, a residue class, or nothing; element-wise oracle of c17Exec
 // (kept elements, order, identity, result type, first error in index order, partition).
 func TestC17_LongLists(t *testing.T) {
-	r := rec(t, "C17", c17Rule+"; long containers: slices, arrays and pointer slices of 41..3000 elements (70000 occasionally), filters keeping one late element / all but one / a residue class / none, one erroring element at a drawn position")
+	r := rec(t, "C17", c17Rule+"; long containers: slices, arrays, pointer slices and maps of 41..3000 elements (slices of 70000 occasionally), filters keeping one late element / all but one / a residue class / none, one erroring element at a drawn position")
 	rapid.Check(t, func(t *rapid.T) {
 		n := scaleLen(t)
 		if rapid.IntRange(0, 39).Draw(t, "huge") == 0 {
@@ -223,6 +254,7 @@ func TestC17_LongLists(t *testing.T) {
 		if rapid.IntRange(0, 3).Draw(t, "asArray") == 0 && n <= 3000 {
 			list = &uni.Node{T: uni.ArrayOf(n, list.T.Elem), Elems: list.Elems}
 		}
+		asMap := list.T.K == uni.KSlice && n <= 3000 && rapid.IntRange(0, 3).Draw(t, "asMap") == 0
 		errAt := -1
 		if kind == 6 && rapid.IntRange(0, 2).Draw(t, "plantError") == 0 {
 			// one element whose ID is a list: `ID == <number>` is an error there
@@ -231,6 +263,15 @@ func TestC17_LongLists(t *testing.T) {
 			cp.Elems = append([]*uni.Node(nil), list.Elems...)
 			cp.Elems[errAt] = &uni.Node{T: list.T.Elem, Keys: []*uni.Node{uni.Str("ID")}, Elems: []*uni.Node{uni.InIface(uni.List(uni.SliceOf(uni.Iface())))}}
 			list = &cp
+		}
+		if asMap {
+			// the same elements as a map of n entries
+			m := &uni.Node{T: uni.MapOf(uni.Scalar(uni.KString), list.T.Elem)}
+			for i, el := range list.Elems {
+				m.Keys = append(m.Keys, uni.Str("k"+strconv.Itoa(i)))
+				m.Elems = append(m.Elems, el)
+			}
+			list = m
 		}
 		var e bx.Expr
 		id := bx.Sel{Parts: []string{"ID"}}
@@ -618,5 +659,85 @@ func TestC13_LongHistory(t *testing.T) {
 		mixed := c13LongRun(t, c)
 		r.Case(fmt.Sprintf("%s|%s|%d|%d", text, pool[0].String(), c.N, c.Every), c.N >= 33000 && mixed, map[string]interface{}{"expr": strconv.QuoteToASCII(text), "pool[0]": pool[0].String(), "calls": c.N, "every": c.Every},
 			fmt.Sprintf("calls:%d", c.N), fmt.Sprintf("mixed-outcomes:%v", mixed))
+	})
+}
+
+// TestC13_ManyEvaluators: a process creates thousands of evaluators and filters (one per rule of
+// a rule set) and keeps them. Each one, whenever it was created and however many were created
+// after it, reports its own text and evaluates as a freshly created evaluator of that text would.
+func TestC13_ManyEvaluators(t *testing.T) {
+	r := rec(t, "C13", c13Rule+"; TestC13_ManyEvaluators: 100..6000 evaluators/filters of distinct (and a few repeated, and a few layout-variant) texts alive at once; each reports its own text and evaluates its own expression; non-trivial = >= 1000 alive")
+	rapid.Check(t, func(t *rapid.T) {
+		m := []int{100, 255, 256, 257, 511, 513, 1000, 1025, 3000, 6000}[rapid.IntRange(0, 9).Draw(t, "alive")]
+		salt := rapid.IntRange(0, 1<<20).Draw(t, "salt")
+		form := rapid.IntRange(0, 3).Draw(t, "form")
+		textOf := func(i int) string {
+			v := strconv.Itoa(salt + i)
+			switch form {
+			case 0:
+				return `a == "v` + v + `"`
+			case 1:
+				return `a matches "^v` + v + `$" or b == ` + v
+			case 2:
+				return `"v` + v + `" in tags and n != ` + v
+			}
+			return `any tags as tg { tg == "v` + v + `" }`
+		}
+		docOf := func(i int) interface{} {
+			v := strconv.Itoa(salt + i)
+			return map[string]interface{}{"a": "v" + v, "b": salt + i, "n": -1, "tags": []interface{}{"x", "v" + v}}
+		}
+		texts := make([]string, m)
+		evs := make([]*bexpr.Evaluator, m)
+		flts := make([]*bexpr.Filter, m)
+		for i := range texts {
+			texts[i] = textOf(i)
+			switch {
+			case i%97 == 13:
+				texts[i] = textOf(i - 13) // the same text again
+			case i%89 == 7:
+				texts[i] = " " + textOf(i-1) + "\n" // a neighbour's text in another layout
+			}
+			var err error
+			if evs[i], err = bexpr.CreateEvaluator(texts[i]); err != nil {
+				t.Fatalf("harness: %q rejected: %v", texts[i], err)
+			}
+			if i%4 == 0 {
+				flts[i], _ = bexpr.CreateFilter(texts[i])
+			}
+		}
+		owner := func(i int) int {
+			switch {
+			case i%97 == 13:
+				return i - 13
+			case i%89 == 7:
+				return i - 1
+			}
+			return i
+		}
+		c := map[string]interface{}{"alive": m, "salt": salt, "form": form}
+		for probe := 0; probe < 300; probe++ {
+			i := rapid.IntRange(0, m-1).Draw(t, "probe")
+			if probe < 4 {
+				i = []int{0, 1, m - 1, m / 2}[probe]
+			}
+			if got := evs[i].Expression(); got != texts[i] {
+				violation(t, "C13", "TestC13_ManyEvaluators", c, "evaluator %d of %d was created from %q, Expression() returns %q", i, m, texts[i], got)
+			}
+			own, other := docOf(owner(i)), docOf((owner(i)+1)%m)
+			if res, err := evs[i].Evaluate(own); err != nil || !res {
+				violation(t, "C13", "TestC13_ManyEvaluators", c, "evaluator %d of %d (%q) on its own document: (%v, %v), a fresh evaluator gives true", i, m, texts[i], res, err)
+			}
+			if res, err := evs[i].Evaluate(other); err != nil || res {
+				violation(t, "C13", "TestC13_ManyEvaluators", c, "evaluator %d of %d (%q) on another rule's document: (%v, %v), a fresh evaluator gives false", i, m, texts[i], res, err)
+			}
+			if f := flts[i]; f != nil {
+				out, err := f.Execute([]interface{}{other, own, other})
+				if err != nil || len(out.([]interface{})) != 1 {
+					violation(t, "C13", "TestC13_ManyEvaluators", c, "filter %d of %d (%q) keeps %v (error %v) of [other, own, other]", i, m, texts[i], out, err)
+				}
+			}
+		}
+		r.Case(fmt.Sprintf("%d|%d|%d", m, salt, form), m >= 1000, c, fmt.Sprintf("alive:%d", m), fmt.Sprintf("form:%d", form))
 	})
 }
